@@ -665,16 +665,18 @@ def to_pysmt_type(sort, env):
         return T.INT
     if sort == REAL:
         return T.REAL
+    # (through the environment's OWN type manager, whichever environment is the current one)
+    tm = env.type_manager
     if is_bv(sort):
-        return T.BVType(sort[1])
+        return tm.BVType(sort[1])
     if is_usort(sort):
-        return env.type_manager.Type(sort[1], 0)
+        return tm.Type(sort[1], 0)
     if sort == STRING:
         return T.STRING
     if is_array(sort):
-        return T.ArrayType(to_pysmt_type(sort[1], env), to_pysmt_type(sort[2], env))
+        return tm.ArrayType(to_pysmt_type(sort[1], env), to_pysmt_type(sort[2], env))
     if is_fun(sort):
-        return T.FunctionType(to_pysmt_type(sort[2], env), [to_pysmt_type(a, env) for a in sort[1]])
+        return tm.FunctionType(to_pysmt_type(sort[2], env), [to_pysmt_type(a, env) for a in sort[1]])
     raise ValueError(sort)
 
 
